@@ -94,6 +94,11 @@ CHECKS = {
         "Both copy mechanisms x option combinations x history prefixes x interleaved suffixes (bounded), incl. an async machine copied before activation.",
         "DESIGN.md section 4 C17",
     ),
+    "C18": sx(
+        "graph object produced by the real generator (and pydot) under the tracer compared with the graph computed from the abstract machine; the solver enumerates subject and current state (little symbolic content: weakest fit, stated)",
+        "Nodes, initial pseudo-edge, one edge per external transition with events and guards, internal transitions in labels, final borders and the current-state highlight.",
+        "DESIGN.md section 4 C18",
+    ),
     "C14": sx(
         "result rule judged on symbolic return values incl. awkward kinds",
         "All bounded populations of before/on callbacks x transition kinds x engines with symbolic return values; 0->None, 1->unwrapped, else list.",
